@@ -151,8 +151,14 @@ def _no_unpickle_disk(diskcache: Any) -> type:
 
 
 def _compute_hmac_bytes(hmac_key: bytes, cache_key: str, raw_bytes: bytes) -> str:
-    """Compute HMAC-SHA256 over the cache key and raw serialized bytes."""
-    msg = cache_key.encode() + raw_bytes
+    """Compute HMAC-SHA256 over the cache key and raw serialized bytes.
+
+    The key is length-prefixed: a bare concatenation would give ("k1", P) and
+    ("k", b"1" + P) the same message, so a signed entry could be replayed under
+    another key with a shifted payload.
+    """
+    key_bytes = cache_key.encode()
+    msg = str(len(key_bytes)).encode() + b":" + key_bytes + raw_bytes
     return hmac.new(hmac_key, msg, hashlib.sha256).hexdigest()
 
 
